@@ -497,7 +497,27 @@ def written_variants(t, V, content):
                 if os.path.exists(path):
                     os.unlink(path)
         return f
+    def appended(mode, read_first):
+        # a handle opened for appending: seek(0) does not decide where the bytes go (O_APPEND), truncate(0) before the
+        # write does - the code's order (seek, truncate, write) leaves exactly the dump (C17_stream_append)
+        def f():
+            path = base + '.append.torrent'
+            with open(path, 'wb') as fh:
+                fh.write(b'd4:old!' + b'y' * (n // 2 + 11) + b'e')
+            try:
+                with open(path, mode) as fh:
+                    if read_first:
+                        fh.seek(0)
+                        fh.read()
+                    t.write_stream(fh, validate=V)
+                with open(path, 'rb') as fh:
+                    return fh.read()
+            finally:
+                os.unlink(path)
+        return f
     rec('file opened r+b, read to the end, then write_stream()', rplus)
+    rec('existing file opened ab, then write_stream()', appended('ab', False))
+    rec('existing file opened a+b, read to the end, then write_stream()', appended('a+b', True))
     rec('write() to a new file', wfile(None))
     rec('write(overwrite=True) over a longer file', wfile(b'z' * (n + 23)))
     return out
